@@ -25,6 +25,27 @@ MUTANTS = {
           "        self._pos = 0\n        self._line_start = 0\n        self._lineno = 1\n        self._lexdata = text\n        self._filename = filename\n")],
         "input() resets fields by hand and forgets _pending_tok",
     ),
+    "lexer_forget_line_start": (
+        ["C12"],
+        [("pycparser/c_lexer.py",
+          "        self._init_state()\n        self._lexdata = text\n        self._filename = filename\n",
+          "        self._pos = 0\n        self._pending_tok = None\n        self._lineno = 1\n        self._lexdata = text\n        self._filename = filename\n")],
+        "input() resets fields by hand and forgets _line_start (columns of the first line)",
+    ),
+    "lexer_forget_lineno": (
+        ["C12"],
+        [("pycparser/c_lexer.py",
+          "        self._init_state()\n        self._lexdata = text\n        self._filename = filename\n",
+          "        self._pos = 0\n        self._pending_tok = None\n        self._line_start = 0\n        self._lexdata = text\n        self._filename = filename\n")],
+        "input() resets fields by hand and forgets _lineno",
+    ),
+    "parser_no_scope_reset": (
+        ["C12"],
+        [("pycparser/c_parser.py",
+          "        self._scope_stack = [dict()]\n        self.clex.input(text, filename)\n",
+          "        self.clex.input(text, filename)\n")],
+        "parse() no longer resets the scope stack at all",
+    ),
     "parse_memo": (
         ["C12"],
         [("pycparser/c_parser.py",
